@@ -2,6 +2,23 @@
    Only statements, [exact], and Print Assumptions live here. *)
 From PG Require Import Lib.Strs Model.Wire Proofs.Wire.
 
+(* The full statement
+     C04_full : forall mn o a, well_typed mn o a = true -> exists r, call mn o a = Some r /\ Spec o a r
+   is FALSE on the unchanged tree: C04_refuted_F04a .. F04g below give seven well-typed calls of the
+   faithful model that violate it (each replayed on a generated client, corpus/C04/).
+
+   C04_partial: for EVERY sanitiser mn, EVERY operation and EVERY argument assignment (any number of
+   parameters in any location and order, any subset of the optional arguments, any of the declared
+   content types): if the call is well typed and meets the seven executable guards, the generated method
+   issues exactly one request, and that request has the operation's method, the path template with each
+   variable replaced by the caller's value, exactly the supplied query / header (/ cookie) values under
+   their original names and nothing else, and the body and Content-Type of the supplied body argument. *)
+Theorem C04_partial : forall mn o a,
+  well_typed mn o a = true -> guard mn o a = true ->
+  exists r, call mn o a = Some r /\ Spec o a r.
+Proof. exact partial. Qed.
+Print Assumptions C04_partial.
+
 (* a supplied cookie parameter is never sent *)
 Theorem C04_refuted_F04a :
   well_typed (mn_of tbl_F04a) op_F04a args_F04a = true
